@@ -16,7 +16,6 @@ STUBS = ["lower transport -> recording object; sessions -> recording ISession ob
          "Twisted's Int32StringReceiver (library code) is executed concretely; frame prefixes fed to it are concrete boundary values, those fed to the repository's own asyncio PrefixProtocol are free octets"]
 ASSUMPTIONS = [
     "asyncio WebSocket adapter (needs a running loop for its receive queue) is not driven; WebSocket negotiation is checked on the Twisted adapter, RawSocket on both frameworks",
-    "a message of exactly 2^24 octets (not representable in the 24-bit RawSocket length field although equal to the largest announceable maximum) is outside the claim",
 ]
 BOUNDS = {
     "quick": "RawSocket handshake: all 4 octets free (2^32 values) x every 1-cut segmentation + octet-wise, both roles, both frameworks, serializer sets {json},{json,msgpack}; send limit: all 16 peer exponents x lengths {limit-1, limit, limit+1}; receive limit: asyncio free 4-octet prefix, Twisted boundary prefixes; WebSocket: client lists = all ordered selections of <= 3 of 5 subprotocol ids x server sets from 4 subsets; 3-message streams under every 1-cut segmentation; 6 corruption kinds",
@@ -187,8 +186,6 @@ def send_limit(sx, fw, server):
         p._serializer = ser
         limit = 2 ** (9 + e)
         for L in (limit - 1, limit, limit + 1):
-            if L >= 2 ** 24:
-                continue          # not representable in the 24-bit length field: outside the claim
             ser.n = L
             info = dict(fw=fw, server=server, e=e, L=L, limit=limit)
             try:
@@ -201,7 +198,14 @@ def send_limit(sx, fw, server):
                 continue
             out = t.take()
             wrote = sum(len(c) for c in out)
-            if L <= limit:
+            if L == 2 ** 24:
+                # equal to the largest maximum a peer can announce, but the frame header has a 24-bit length field (octet 0 is the
+                # frame type): such a message cannot be framed; the only sound outcomes are a refusal or a well-formed DATA frame
+                hdr = bytes(wslib.concat(out)[:4]) if wrote >= 4 else b""
+                sx.check((raised is not None and wrote == 0) or (raised is None and hdr[:1] == b"\x00" and int.from_bytes(hdr[1:], "big") == L),
+                         "unframeable-2^24-message-refused-not-sent-as-another-frame-type", info=dict(info, wrote=wrote, hdr=hdr.hex()))
+                sx.cover("limit:refused" if raised is not None else "limit:sent")
+            elif L <= limit:
                 sx.check(raised is None and wrote == 4 + L, "message-within-peer-limit-is-sent-whole", info=dict(info, wrote=wrote))
                 if wrote >= 4:
                     hdr = wslib.concat(out)[:4]
